@@ -16,6 +16,9 @@ checks["C07"] = dict(cat="fault_enumeration", ref="§7 C07", engine="server", te
 checks["C08"] = dict(cat="fault_enumeration", ref="§7 C08", engine="client", technique="deterministic simulation with crash-point enumeration: real ATP client vs a scripted v3/v1 server; EOF / read error / garbage / stall-then-EOF at enumerated byte offsets of the server stream, client writes failing independently, crossed with seeded schedules; reference-decoder oracle for fabricated results, exact hang detection",
    text="Generated transcripts (hello with a real self-described schema, work-done, signals, non-fatal/step-fatal/server-fatal errors, unknown IDs, unsupported versions, a schema that does not unserialize) are played reactively by a scripted server; the base transcript is run fault-free and then re-run with each fault kind at every message boundary +-1 and a stride (quick) or every byte (thorough). A success is legitimate only if a well-formed work-done for that run is present in the bytes actually delivered; every call and Close must return (decided exactly on the fake clock).",
    note="Trusted: rewriter, synctest, cbor (also used by the reference decoder). Premise enforced: the server stream ends, errors or garbles; runs where only the client's writes failed while the server stream stayed intact (or was still stalled when Close's 5 s wait expired) are excluded and counted in the evidence.")
+checks["C10"] = dict(cat="exploration", ref="§7 C10", engine="hello", technique="deterministic simulation with fault injection into the hello message: structural mutations (delete/retype/rename/duplicate/re-point/null/extreme) at tape-chosen or systematically swept nodes of a generated plugin description delivered over a fragmenting transport to the real Client.ReadSchema, followed by first-use exercise of whatever schema is accepted",
+   text="Seeded search over single and double mutations of generated descriptions plus grammar-free random trees; sweep batches apply every mutation kind at every node (thorough) of base descriptions. Violation = a panic in ReadSchema or in any Unserialize/Validate/Serialize/ValidateCompatibility/SelfSerialize on an accepted schema; a fatal stack overflow kills the worker and is attributed to the run by the driver.",
+   note="Trusted: rewriter, synctest. The schedule dimension is degenerate here (one engine goroutine); what is explored is the fault space. UnserializeScope called directly is not covered. Exercise values are generated valid/invalid inputs plus a fixed palette of decoder-producible shapes; this is first-use smoke exercise, not C04's full input domain.")
 not_yet = {
 }
 na = {
@@ -53,6 +56,7 @@ m = {
  },
  "engines": [
    {"name": "client", "path": "harness/engine_client.go", "serves_properties": ["C08", "C06"], "kind_free_text": "real atp client vs scripted v3/v1 server with byte-offset fault injection on the server stream (fault-free healthy transcripts serve C06)"},
+   {"name": "hello", "path": "harness/engine_hello.go", "serves_properties": ["C10"], "kind_free_text": "real Client.ReadSchema vs scripted hello with structural mutations; first-use exercise of accepted schemas"},
    {"name": "server", "path": "harness/engine_server.go", "serves_properties": ["C07"], "kind_free_text": "real atp server vs scripted client with byte-offset fault injection on the client stream"},
    {"name": "session", "path": "harness/session.go", "serves_properties": ["C05", "C06"], "kind_free_text": "real atp client <-> real atp server over simulated pipes under the seeded scheduler (zzsimrt) inside a testing/synctest bubble"},
  ],
